@@ -49,10 +49,14 @@ def main():
         if not os.path.exists(d):
             subprocess.run(["git", "-C", "/repo", "worktree", "add", "-q", "--detach", d, "HEAD"], check=True)
         prev = []
-        for mp in sorted(glob.glob(os.path.join(HERE, "seeded", p["id"] + "*", "meta.json"))):
-            m = json.load(open(mp))
-            if m.get("property") == p["id"] and m.get("breaks"):
-                prev.append(m["breaks"].split(": ", 1)[-1])
+        # ideas used for neighbouring properties (same code region) count as used too
+        family = next((f for f in (("C07", "C08", "C09"), ("C03", "C16"), ("C13", "C14"), ("C04", "C20"))
+                       if p["id"] in f), (p["id"],))
+        for pid in family:
+            for mp in sorted(glob.glob(os.path.join(HERE, "seeded", pid + "*", "meta.json"))):
+                m = json.load(open(mp))
+                if m.get("property") == pid and m.get("breaks"):
+                    prev.append(m["breaks"].split(": ", 1)[-1])
         txt = T.format(dir=d, pid=p["id"], title=p["title"], statement=p["statement"], quant=p["quantifier"]["text"],
                        files=", ".join(p["anchors"]["files"]),
                        prev="\n".join(f'  {k + 1}. "{x}"' for k, x in enumerate(prev)), extra=EXTRA.get(p["id"], ""))
